@@ -151,6 +151,17 @@ pub fn evaluate(sc: &CacheSc, h: &Hist, out: &RunOut) -> Vec<Violation> {
           &[("op", op_name(&e.op)), ("by_clear", x.key.is_none().to_string())],
           format!("{:?} [{}-{}] returned value {id} of key {k} (written [{}-{}]) although a remove/invalidate/clear [{}-{}] began after the write and completed before the read began", e.op, e.inv, e.ret, w.inv, w.ret, x.inv, x.ret),
         ));
+        if w.is_load && matches!(e.op, COp::FetchWith { .. }) {
+          // the same thing seen from C15: a miss after a completed invalidation must trigger a
+          // new load, not be handed the result of a load that finished before the invalidation
+          vs.push(viol(
+            sc,
+            "C15",
+            "miss_after_invalidation_served_by_earlier_load",
+            &[("by_clear", x.key.is_none().to_string())],
+            format!("{:?} [{}-{}] began after the remove/invalidate/clear [{}-{}] had completed and was handed value {id} of load [{}-{}], which was resident before that removal began", e.op, e.inv, e.ret, x.inv, x.ret, w.inv, w.ret),
+          ));
+        }
       }
       // counter sanity: never more increments than successful computes invoked so far
       let computes = h.evs.iter().filter(|c| matches!(c.op, COp::Compute { k: kk } if kk == k) && c.res == Res::Bool(true) && c.inv < e.ret).count() as u32;
